@@ -220,10 +220,12 @@ def pong_then_foreign(ctx, rng, bufsize, extra):
         sc.close()
 
 
-def queued_payload_bound(ctx, rng, bufsize):
-    """check_fullness after every callback and no frame ever delivered (the peer is slow): the stream payload
-    queued by this end must stay within the budget plus one frame cut per callback, and the rttest PING must have
-    been requested as soon as the budget was exceeded."""
+def queued_payload_bound(ctx, rng, bufsize, peer_takes=False):
+    """check_fullness after every callback and no acknowledgement ever arriving (the peer is slow): the stream payload
+    queued by this end since the last PONG must stay within the budget plus one frame cut per callback, and the
+    rttest PING must have been requested as soon as the budget was exceeded.  With `peer_takes` the local pipe
+    takes every frame at once (this end's queue is empty whenever check_fullness runs) — what is in flight is
+    still unacknowledged, so the same bound holds; the count is kept here, from the frames as they are queued."""
     o = tg.Opts(nflows=2, steps=0, latency=True, bufsize=bufsize)
     sc = tg.Scenario(rng, o)
     try:
@@ -236,15 +238,25 @@ def queued_payload_bound(ctx, rng, bufsize):
             sc.do(('deliver', 's', 'ok'))
         if sc.stop or len(t.flows) < 2:
             return sc.s.ins, sc.s.outs
-        n0 = len(t.cmux.outbuf)
         for i in range(2):
             sc.env_write(i, 'app', tg.payload(rng, 12 * 2048, 5 + i))
+        queued, pings = 0, 0
         for k in range(16):
+            if sc.stop:
+                break
+            n0 = len(t.cmux.outbuf)
             sc.do(('cb', 'c', k % 2, full))
-            sc.do(('full', 'c'))
             new = frames_of(t.cmux, n0)
-            queued = sum(n for (_c, cmd, n, _d) in new if cmd == ss.CMD_TCP_DATA)
-            pings = [f for f in new if f[1] == ss.CMD_PING and f[3] == b'rttest']
+            if peer_takes:
+                while t.cmux.outbuf and not sc.stop:
+                    sc.do(('deliver', 's', 'ok'))      # the frames leave; the answer (if any) stays at the server
+                n0 = 0
+            else:
+                n0 += len(new)
+            sc.do(('full', 'c'))
+            new += frames_of(t.cmux, n0)
+            queued += sum(n for (_c, cmd, n, _d) in new if cmd == ss.CMD_TCP_DATA)
+            pings += len([f for f in new if f[1] == ss.CMD_PING and f[3] == b'rttest'])
             if queued > bufsize + 2048 * 2:
                 tg.report(ctx, sc, 'C09:bound:queued-stream-payload-exceeds-budget', 0, 'callback %d' % k,
                           '<= %d bytes queued while no PONG arrives' % (bufsize + 4096), queued)
@@ -365,6 +377,7 @@ def run(ctx):
     server_loop_keeps_answering(ctx)
     all_in, all_out = [], []
     for tag, fn in ([('bound-%d' % b, (lambda b=b: queued_payload_bound(ctx, rng, b))) for b in (2048, 5000)] +
+                    [('bound-taken-%d' % b, (lambda b=b: queued_payload_bound(ctx, rng, b, True))) for b in (2048, 5000)] +
                     [('burst', lambda: tg.burst_in_one_read(ctx, rng, 'C09', 120, bufsize=300, latency=True))]):
         ins, outs = fn()
         all_in.append(ins)
@@ -398,6 +411,43 @@ def run(ctx):
     tg.compare(ctx, all_in, all_out, 'C09')
 
 
+def replay_bound(case):
+    """Re-run the recorded steps on the real code and count, from the frames as the client queues them, the stream
+    payload queued since the last PONG reached it; judged after every check_fullness."""
+    cfg = case['script'][0].split()
+    bufsize = int(cfg[2])
+    s = ts_script(case)
+    try:
+        t, ss = s.t, s.t.ssnet
+        queued, pings = 0, 0
+        for st in tg.decode_steps(case['steps']):
+            n0 = len(t.cmux.outbuf)
+            pong = (st[0] == 'deliver' and st[1] == 'c' and t.smux.outbuf and
+                    struct.unpack('!ccHHH', t.smux.outbuf[0][:8])[3] == ss.CMD_PONG)
+            if not s.do(st):
+                break
+            if pong:
+                queued, pings = 0, 0
+            if not (st[0] in ('deliver', 'round') and st[1] == 's'):
+                new = frames_of(t.cmux, n0)
+                queued += sum(n for (_c, cmd, n, _d) in new if cmd == ss.CMD_TCP_DATA)
+                pings += len([f for f in new if f[1] == ss.CMD_PING and f[3] == b'rttest'])
+            if st[0] == 'full' and st[1] == 'c':
+                if queued > bufsize + 4096:
+                    return True, '%d bytes of stream payload queued with no PONG (budget %d)' % (queued, bufsize)
+                if queued > bufsize and not pings:
+                    return True, 'no rttest PING with %d bytes queued (budget %d)' % (queued, bufsize)
+        return False, 'the queued payload stays within the budget and the PING is requested'
+    finally:
+        s.close()
+
+
+def ts_script(case):
+    import tunnel_sim
+    cfg = case['script'][0].split()
+    return tunnel_sim.Script(int(cfg[1]), int(cfg[2]), int(cfg[3]), [int(x) for x in cfg[4:]])
+
+
 def replay(ctx, rep):
     case = rep['case']
     if case.get('kind') == 'server-start':
@@ -410,6 +460,8 @@ def replay(ctx, rep):
         server_loop_keeps_answering(c2, only=case['size'])
         hit = [v for v in c2.violations if v['key'] == rep['key']]
         return bool(hit), (hit[0]['observed'] if hit else 'the PING after the burst is answered')
+    if rep['key'].startswith(('C09:bound:queued', 'C09:ping:budget')):
+        return replay_bound(case)
     s, wrote = tg.replay_script(case)
     try:
         t = s.t
